@@ -19,7 +19,8 @@ Three layers, all executable:
 
 The model mirrors the code that exists, branch by branch (comments give the Python lines); it does
 not contain a "writing" flag because the code has none: `append` works whenever a data shape is
-known, also outside `start_writing`/`end_writing` and also in `readonly` mode.
+known, also outside `start_writing`/`end_writing` (since fd5b417 not in `readonly` mode, and not
+for data whose dtype numpy cannot cast to the dtype of the storage).
 -/
 namespace PdeVerif.Storage
 
@@ -136,28 +137,38 @@ def appendData (s : Store K F) (fi : FieldInfo) (t : K) (frame : F) : Store K F 
     if fi.shape ≠ sh then (s, some .value)
     else ({ s with frames := s.frames ++ [frame], times := s.times ++ [t] }, none)
 
-/-- `StorageBase.append` (base.py:128-145).  Note: no check of `write_mode`, and `_grid` stays
-set when `_append_data` raises afterwards. -/
-def append (s : Store K F) (fi : FieldInfo) (time : Option K) (frame : F) :
+/-- the dtype rule of `StorageBase.append`: `canCast` is numpy's verdict
+`np.can_cast(field.dtype, self._dtype, casting="same_kind")` (external, abstract here); it is only
+consulted when `_dtype` is set -/
+def appendCast (s : Store K F) (fi : FieldInfo) (t : K) (frame : F) (canCast : Bool) :
     Store K F × Option Err :=
-  let t := match time with
-    | some t => t
-    | none => defaultTime s.times
-  match s.grid with
-  | none => appendData { s with grid := some fi.grid } fi t frame
-  | some g => if g ≠ fi.grid then (s, some .value) else appendData s fi t frame
+  if s.dtypeSet && !canCast then (s, some .type)      -- `Cannot store data of type ... as ...`
+  else appendData s fi t frame
+
+/-- `StorageBase.append` (base.py:128-157, after fd5b417): read-only check first, default
+time, grid (stays set when a later check raises), dtype rule, then `_append_data`. -/
+def append (s : Store K F) (fi : FieldInfo) (time : Option K) (frame : F) (canCast : Bool) :
+    Store K F × Option Err :=
+  if s.mode = Mode.readonly then (s, some .runtime)   -- `Cannot write in read-only mode`
+  else
+    let t := match time with
+      | some t => t
+      | none => defaultTime s.times
+    match s.grid with
+    | none => appendCast { s with grid := some fi.grid } fi t frame canCast
+    | some g => if g ≠ fi.grid then (s, some .value) else appendCast s fi t frame canCast
 
 /-- the state-changing methods of one storage as an operation alphabet -/
 inductive SOp (K F : Type)
   | start (fi : FieldInfo)
-  | append (fi : FieldInfo) (t : Option K) (frame : F)
+  | append (fi : FieldInfo) (t : Option K) (frame : F) (canCast : Bool)
   | endW
   | clear (clearShape : Bool)
   | setMode (m : Mode)
 
 def sstep (s : Store K F) : SOp K F → Store K F × Option Err
   | .start fi => startWriting s fi
-  | .append fi t f => append s fi t f
+  | .append fi t f c => append s fi t f c
   | .endW => (s, none)                               -- `end_writing` does nothing (base.py:370)
   | .clear b => (clear s b, none)
   | .setMode m => ({ s with mode := m }, none)
@@ -384,7 +395,7 @@ def outOrNew (out : Option (Store K F)) (fi' : FieldInfo) : Store K F :=
 store for it (the copy of the transformed field's data); `finfo` is the effect of the user
 function on the field description.  Returns the state of `out` (if it exists yet) and the
 error that aborted the loop. -/
-def applyLoop (s : Store K F) (finfo : FieldInfo → FieldInfo) :
+def applyLoop (s : Store K F) (finfo : FieldInfo → FieldInfo) (canCast : Bool) :
     List (Nat × F) → Option (Store K F) → Bool → Option (Store K F) × Option Err
   | [], out, _ => (out, none)
   | (i, newFrame) :: rest, out, writing =>
@@ -399,14 +410,14 @@ def applyLoop (s : Store K F) (finfo : FieldInfo → FieldInfo) :
       match r2 with
       | (out2, some e) => (some out2, some e)
       | (out2, none) =>
-        match append out2 fi' (some t) newFrame with
+        match append out2 fi' (some t) newFrame canCast with
         | (out3, some e) => (some out3, some e)
-        | (out3, none) => applyLoop s finfo rest (some out3) true
+        | (out3, none) => applyLoop s finfo canCast rest (some out3) true
 
 /-- `StorageBase.apply` (base.py:486-549) / `copy` (`finfo = id`) -/
 def applyTo (s : Store K F) (finfo : FieldInfo → FieldInfo) (newFrames : List F)
-    (out : Option (Store K F)) : Option (Store K F) × Option Err :=
-  match applyLoop s finfo ((List.range s.times.length).zip newFrames) out false with
+    (out : Option (Store K F)) (canCast : Bool) : Option (Store K F) × Option Err :=
+  match applyLoop s finfo canCast ((List.range s.times.length).zip newFrames) out false with
   | (o, some e) => (o, some e)
   | (some o, none) => (some o, none)
   | (none, none) => (some (Store.new .truncateOnce), none)  -- `if out is None: out = MemoryStorage()`
@@ -527,7 +538,7 @@ inductive Op (K : Type)
   | newStore (m : Mode)
   | setMode (sid : Nat) (m : Mode)
   | start (sid fid : Nat)
-  | append (sid fid : Nat) (t : Option K)
+  | append (sid fid : Nat) (t : Option K) (canCast : Bool)   -- `canCast`: numpy's `can_cast` verdict
   | endW (sid : Nat)
   | clear (sid : Nat) (clearShape : Bool)
   | read (sid : Nat) (i : Int)                             -- `storage[i]`, kept as a live field
@@ -537,7 +548,7 @@ inductive Op (K : Type)
   | extractField (sid : Nat) (fid : FieldId) (label : Option String)
   | viewRead (sid : Nat) (fid : FieldId) (k : Int)         -- `storage.view_field(fid)[k]`, kept live
   | viewItems (sid : Nat) (fid : FieldId)                  -- `list(storage.view_field(fid).items())`
-  | apply (sid : Nat) (f : Func K) (out : Option Nat)      -- `copy` is `apply ident`
+  | apply (sid : Nat) (f : Func K) (out : Option Nat) (canCast : Bool)  -- `copy` is `apply ident`
   | fromFields (times : List K) (fids : List Nat) (m : Mode)
   | fromCollection (sids : List Nat) (label : Option String) (rtol atol : K)
   | poke (sid : Nat) (i : Nat) (vals : List K)             -- `storage.data[i][...] = vals`
@@ -586,13 +597,13 @@ def step (w : World K) : Op K → World K × Except Err (Obs K)
     match w.fields[fid]? with
     | none => (w, .error .bad)
     | some p => updStore w sid (fun s => startWriting s p.1)
-  | .append sid fid t =>
+  | .append sid fid t c =>
     match w.fields[fid]? with
     | none => (w, .error .bad)
     | some p =>
       -- `np.array(data)`: a fresh buffer with the current content of the field's buffer
       updStore { w with heap := w.heap ++ [w.deref p.2] } sid
-        (fun s => Storage.append s p.1 t w.heap.length)
+        (fun s => Storage.append s p.1 t w.heap.length c)
   | .endW sid => updStore w sid (fun s => (s, none))
   | .clear sid b => updStore w sid (fun s => (Storage.clear s b, none))
   | .read sid i =>
@@ -668,7 +679,7 @@ def step (w : World K) : Op K → World K × Except Err (Obs K)
         match r with
         | .error e => (w, .error e)
         | .ok l => (w, .ok (.items l))
-  | .apply sid f out =>
+  | .apply sid f out c =>
     match w.stores[sid]? with
     | none => (w, .error .bad)
     | some s =>
@@ -683,7 +694,7 @@ def step (w : World K) : Op K → World K × Except Err (Obs K)
           -- the data every `out.append(transformed, t)` will copy
           let newVals : List (List K) := applyNewVals w f s
           let w1 := { w with heap := w.heap ++ newVals }
-          match applyTo s f.info (List.range' w.heap.length newVals.length) outS, out with
+          match applyTo s f.info (List.range' w.heap.length newVals.length) outS c, out with
           | (some o, none), none =>
             ({ w1 with stores := w1.stores ++ [o] }, .ok (.store w.stores.length))
           | (some o, none), some oid =>
